@@ -11,6 +11,65 @@ let z_of_int n = if n = 0 then Z0 else if n > 0 then Zpos (pos_of_int n) else Zn
 let rec int_of_pos = function XH -> 1 | XO p -> 2 * int_of_pos p | XI p -> 2 * int_of_pos p + 1
 let int_of_z = function Z0 -> 0 | Zpos p -> int_of_pos p | Zneg p -> - (int_of_pos p)
 
+(* ---- OPS: replay an operation sequence on the extracted ports of the simple edge operations ---- *)
+let zl_of_strings a lo hi = let r = ref [] in for k = hi - 1 downto lo do r := z_of_int (int_of_string a.(k)) :: !r done; !r
+
+let dump_mesh id step m =
+  let b = Buffer.create 256 in
+  Buffer.add_string b (Printf.sprintf "A %s %d H" id step);
+  List.iter (fun (s, p) -> Buffer.add_string b (Printf.sprintf " %d %d" (int_of_z s) (int_of_z p))) m.hs;
+  Buffer.add_string b " N";
+  List.iter (fun x -> Buffer.add_string b (if x then " 1" else " 0")) m.nan;
+  print_endline (Buffer.contents b);
+  Printf.printf "O %s %d %d %d %d\n" id step (if halfedge_inv m.hs then 1 else 0)
+    (if nan_iff_unreferenced m then 1 else 0) (if starts_in_range m then 1 else 0)
+
+let parse_mesh toks pos nV nH =
+  let h = ref [] in
+  for e = nH - 1 downto 0 do
+    h := (z_of_int (int_of_string toks.(pos + 2 * e)), z_of_int (int_of_string toks.(pos + 2 * e + 1))) :: !h
+  done;
+  { hs = !h; nan = List.init nV (fun _ -> false) }
+
+let run_ops line =
+  let toks = Array.of_list (List.filter (fun s -> s <> "") (String.split_on_char ' ' line)) in
+  let id = toks.(1) in
+  let nV = int_of_string toks.(2) and nH = int_of_string toks.(3) in
+  let m = ref (parse_mesh toks 4 nV nH) in
+  dump_mesh id 0 !m;
+  (* split the rest at "|" *)
+  let ops = ref [] and cur = ref [] in
+  for k = Array.length toks - 1 downto 4 + 2 * nH do
+    if toks.(k) = "|" then (ops := (Array.of_list !cur) :: !ops; cur := []) else cur := toks.(k) :: !cur
+  done;
+  let step = ref 0 in
+  List.iter (fun t ->
+    incr step;
+    let zi k = z_of_int (int_of_string t.(k)) in
+    let hs_op f = (match f !m.hs with Some h -> Some { hs = h; nan = !m.nan } | None -> None) in
+    let r =
+      match t.(0) with
+      | "pairup" -> hs_op (fun h -> pair_up h (zi 1) (zi 2))
+      | "collapsetri" -> hs_op (fun h -> collapse_tri h (tri_of (zi 1)))
+      | "removeiffolded" -> remove_if_folded !m (zi 1)
+      | "fliptris" -> hs_op flip_tris
+      | "removeunref" -> if starts_in_range !m then Some (remove_unreferenced_verts !m) else None
+      | "reindexfull" ->
+        let n2o = zl_of_strings t 1 (Array.length t) in
+        (match sort_verts { hs = !m.hs; nan = List.map (fun _ -> false) !m.nan } n2o with
+         | Some m' ->
+           (* positions are permuted too: NaN flags follow *)
+           let flags = Array.of_list !m.nan in
+           (try Some { hs = m'.hs; nan = List.map (fun o -> flags.(int_of_z o)) n2o } with _ -> None)
+         | None -> None)
+      | "sortverts" -> if starts_in_range !m then sort_verts !m (zl_of_strings t 1 (Array.length t)) else None
+      | "sortfaces" -> sort_faces !m (zl_of_strings t 1 (Array.length t))
+      | _ -> None in
+    (match r with
+     | Some m' -> m := m'; dump_mesh id !step !m
+     | None -> Printf.printf "A %s %d SKIP\n" id !step)) !ops;
+  Printf.printf "E %s\n" id
+
 let () =
   try
     while true do
@@ -36,6 +95,16 @@ let () =
             | None -> Printf.printf "M %s UNDEFINED\n" id
             | Some m -> Printf.printf "M %s %d\n" id (if m then 1 else 0)));
         Printf.printf "G %s %d\n" id (if gate_case !tris then 1 else 0)
+      end else
+      if String.length line > 4 && String.sub line 0 4 = "OPS " then run_ops line else
+      if String.length line > 4 && String.sub line 0 4 = "ORC " then begin
+        (* ORC id step nV nH s p ... b b ... : the extracted invariants on the IMPLEMENTATION's arrays *)
+        let toks = Array.of_list (List.filter (fun s -> s <> "") (String.split_on_char ' ' line)) in
+        let nV = int_of_string toks.(3) and nH = int_of_string toks.(4) in
+        let m0 = parse_mesh toks 5 nV nH in
+        let m = { hs = m0.hs; nan = List.init nV (fun v -> toks.(5 + 2 * nH + v) = "1") } in
+        Printf.printf "O %s %s %d %d %d\n" toks.(1) toks.(2) (if halfedge_inv m.hs then 1 else 0)
+          (if nan_iff_unreferenced m then 1 else 0) (if starts_in_range m then 1 else 0)
       end else
       if String.length line > 3 && String.sub line 0 3 = "HI " then begin
         (* HI id s0 p0 s1 p1 ... : extracted is_manifold / halfedge_inv on the IMPLEMENTATION's arrays *)
